@@ -428,3 +428,17 @@ NONTRIVIAL = {
     "C19": lambda r, p: _ok(r, "hub", "update_global_index") or (_ok(r, "registry", "remove_validator") and any(x.get("k") == "update_global_index" for x in r["fx"])),
     "C20": lambda r, p: r["tx"].get("k") in ("probe", "exec") and (r["tx"].get("tx", r["tx"]).get("msg", {}).get("k") in ("update_params", "update_config")),
 }
+
+
+# ------------------------------------------------------------------------------------------------
+# Explorations (./check explore <name>): environment refinements that *show* what an assumption of section 4 carries.
+# Not listed properties, not in MANIFEST.json; a reproduced counterexample is reported as EXPLORATION, never as VIOLATION.
+EXPLORE = {}
+_E2 = dict(invariants=[], actions=["Act_E2"], rule="released groups without slashing / unsolicited coins",
+           mc=[], sim=[], seeded=[])
+EXPLORE["E2-paylag"] = dict(_E2, expect="counterexample",
+                            hunt=[hf_hunt("lag", consts=dict(PayLag=True), extra=dict(Features=["core"], Dts=[1, 2, 3, 5]))],
+                            drive=[dict(name="release-lag", menu=MENU_RELEASE, runs=(60, 600), len=45, consts=dict(MaxBatch=8, PayLag=True))])
+EXPLORE["E2-control"] = dict(_E2, expect="none",
+                             hunt=[hf_hunt("nolag", extra=dict(Features=["core"], Dts=[1, 2, 3, 5]))],
+                             drive=[dict(name="release", menu=MENU_RELEASE, runs=(60, 600), len=45, consts=dict(MaxBatch=8))])
